@@ -9,7 +9,7 @@ META = {
                  "duration declared in the library (namespace scope, static members, function-local statics) is const/"
                  "constexpr without mutable sub-objects; R20.2 every external function the library calls is on an allow-list "
                  "of MT-safe functions (one reason per entry) and none is on the POSIX list of functions that need not be "
-                 "thread-safe; R20.3 the only raw pointers stored in library objects point into the object's own buffer. R20.4: after a method released a descriptor member with ::close(), the member takes a new value and is never set back to a copy taken before the close.",
+                 "thread-safe; R20.3 the only raw pointers stored in library objects point into the object's own buffer. R20.4: after a method released a descriptor member with ::close(), the member takes a new value and is never set back to a copy taken before the close. R20.5 = the name obligations of R15.1/R15.2 (distinct outputs are written through distinct scratch files). R20.6: a data member that is always assigned the same function of other members (cdnsverif/derived.py) is recomputed by every member function that changes those members; the lazy form under a validity flag / stored key is refreshed before every read and invalidated after every change. thread_local objects are per-thread state.",
     "explanation": "Effect analysis over declarations and the resolved call graph: a statement about the program text, hence "
                    "about all schedules. Every obligation is enumerated and must be discharged. Byte-identical outputs follow "
                    "from determinism plus absence of sharing; they are not observed here.",
